@@ -106,7 +106,8 @@ def concretize(model, val, depth=0):
         n = model.eval(val.n, model_completion=True)
         n = n.as_long() if z3.is_int_value(n) else 0
         n = max(0, min(n, 64))
-        return {"array": [concretize(model, val.at(z3.IntVal(i))) for i in range(n)], "kind": val.kind}
+        at0 = getattr(val, "_init_at", None) or val.at
+        return {"array": [concretize(model, at0(z3.IntVal(i))) for i in range(n)], "kind": val.kind}
     if isinstance(val, Obj):
         return {"obj": getattr(val.cls, "name", str(val.cls)),
                 "attrs": {k: concretize(model, v, depth + 1) for k, v in val.attrs.items()}}
